@@ -4,3 +4,4 @@ open Fzf.Props.C06
 #print axioms C06_chunking_irrelevant
 #print axioms C06_records_exact
 #print axioms C06_data_with_eof_witness
+#print axioms C06_tail_keeps_last_n
